@@ -170,6 +170,17 @@ def eval_c05(ctx, tr):
                 ctx.witness('unrelated ran during await')
         ctx.check('C05.no_unrelated_earlier', True)
         ctx.check('C05.no_unrelated_later', True)
+        # "that child is processed immediately": when the in-handler await returns, the child has been processed
+        if ae is not None and ae.outcome == 'return' and 'snap' in ae.f:
+            sn = ae.snap
+            ctx.check('C05.processed_inline', sn.get('status') == 'completed' and sn.get('signal') is True, awaiting=ab.by, child=c,
+                      got=(sn.get('status'), sn.get('signal')), why='the in-handler await returned although the child had not been processed')
+            if not (sn.get('status') == 'completed' and sn.get('signal') is True):
+                # ... and until it is, nothing unrelated may run either (the awaiting event's own remaining handlers included)
+                done = max([x.seq for x in tr.recs if x.kind == 'X' and x.ev in fam] or [tr.end])
+                for e in tr.E:
+                    if ae.seq < e.seq < done and e.ev not in fam:
+                        ctx.check('C05.no_unrelated_later', False, awaiting=ab.by, child=c, ran=e.h, why='ran after the await returned an unprocessed child and before that child completed')
 
 
 # ------------------------------------------------------------------ C06
